@@ -64,8 +64,8 @@ structure Meta where
   funtil : Nat
 deriving DecidableEq, Repr, Inhabited
 
-/-- tasks sorted by (chan,id); `active` = raw active-index rows chan ↦ task id;
-    `metas` = runtime-meta rows chan ↦ meta. -/
+/-- `tasks` = task rows (a bag with unique (chan,id) keys); `active` = raw active-index rows
+    chan ↦ task id; `metas` = runtime-meta rows chan ↦ meta. -/
 structure State where
   tasks : List Task
   active : List (Nat × Nat)
